@@ -117,7 +117,7 @@ Theorem C01_paths_malformed_rejected :
      corrupt (in_body i) s -> ~ empty_claim h s (b_len (in_body i)) -> st <> SOk) /\
   (forall c d u h d' r,
      fetch_item c d u (Some h) = (d', r) -> 0 <= up_cl u ->
-     corrupt (up_body u) (up_cl u) -> ~ empty_claim h (up_cl u) (b_len (up_body u)) -> r = None).
+     corrupt (up_body u) (up_cl u) -> ~ empty_claim h (up_cl u) (b_len (up_body u)) -> forall dg, r <> Ok dg).
 Proof.
   repeat split.
   - exact http_put_corrupt_rejected.
